@@ -34,11 +34,16 @@ def bounds(tier):
 ASSUMPTIONS = [
     "outputs with equal label lists are interchangeable for the inventory rule (the rule reads labels only)",
     "oracle: device d is expected iff a connected output label starts with d, a user demand Ud<d> exists "
-    "(case-insensitive) and d is in GeckoConstants.DEVICES; order = all_device_keys order",
+    "(case-insensitive) and d is in the device table of the audited commit (a copy in the check, compared with "
+    "GeckoConstants.DEVICES); order = all_device_keys order",
     "the interpreter's string hash seed is fixed by ./run (PYTHONHASHSEED=1) so a set-order dependence shows "
     "deterministically",
 ]
 SITES = ["inv.*"]
+# the user-device table of the audited commit (GeckoConstants.DEVICES: name, keypad code, class)
+DEVICE_TABLE = {"P1": ("Pump 1", 1, "PUMP"), "P2": ("Pump 2", 2, "PUMP"), "P3": ("Pump 3", 3, "PUMP"),
+                "P4": ("Pump 4", 4, "PUMP"), "P5": ("Pump 5", 5, "PUMP"), "BL": ("Blower", 6, "BLOWER"),
+                "Waterfall": ("Waterfall", 23, "PUMP"), "LI": ("Lights", 16, "LIGHT")}
 
 
 def _inv_key(plat, c, l):
@@ -166,11 +171,13 @@ def inventory(plat, c, l, k, flavour, triple=False):
             else:
                 labels.append("Unknown")      # one path for every out-of-range byte
         sx.observe("labels", list(labels))
-        exp = fe.expected_devices(labels, all_devices, user_demands, GeckoConstants.DEVICES)
-        D = GeckoConstants.DEVICES
-        exp_p = [d for d in exp if D[d][3] == "PUMP"]
-        exp_b = [d for d in exp if D[d][3] == "BLOWER"]
-        exp_l = [d for d in exp if D[d][3] == "LIGHT"]
+        # published rows are taken from the copy; rows added since are accepted as they are
+        D = {k: (v[0], v[1], v[3]) for k, v in GeckoConstants.DEVICES.items()}
+        D.update(DEVICE_TABLE)
+        exp = fe.expected_devices(labels, all_devices, user_demands, D)
+        exp_p = [d for d in exp if D[d][2] == "PUMP"]
+        exp_b = [d for d in exp if D[d][2] == "BLOWER"]
+        exp_l = [d for d in exp if D[d][2] == "LIGHT"]
         got = ([p.key for p in f.pumps], [b.key for b in f.blowers], [x.key for x in f.lights])
         sx.observe("devices", got)
         sx.check(got[0] == exp_p, "inv.pumps", lambda: f"{got[0]} expected {exp_p} for wiring {labels}")
@@ -182,7 +189,7 @@ def inventory(plat, c, l, k, flavour, triple=False):
             sx.check(p._user_demand["demand"] == ud and p.modes == acc[ud].items, "inv.pump-demand-and-modes")
             sx.check(p.device_class == "PUMP" and p.name == D[p.key][0], "inv.pump-class")
         for d in f.blowers + f.lights:
-            sx.check(d.device_class == D[d.key][3] and d.name == D[d.key][0], "inv.switch-class")
+            sx.check(d.device_class == D[d.key][2] and d.name == D[d.key][0], "inv.switch-class")
         exp_s = [s[0].upper() for s in GeckoConstants.SENSORS if s[1] in acc]
         exp_bs = [s[0].upper() for s in GeckoConstants.BINARY_SENSORS if s[1] in acc]
         sx.check([s.key for s in f.sensors] == exp_s, "inv.sensors")
